@@ -93,9 +93,27 @@ impl<L: Eq + Copy, R: Eq + Copy> BiMapModel<L, R> {
     }
 }
 
+/// Stand-in for the `registrations: HashMap<RegistrationId, Registration>` field: the
+/// ADMIT text only ever removes the superseded id from it; the removal is recorded.
+pub(crate) struct RegStore {
+    pub(crate) removed: Option<RegistrationId>,
+    pub(crate) removes: u8,
+}
+impl RegStore {
+    pub(crate) fn new() -> Self {
+        RegStore { removed: None, removes: 0 }
+    }
+    pub(crate) fn remove(&mut self, id: &RegistrationId) -> Option<()> {
+        self.removed = Some(*id);
+        self.removes += 1;
+        Some(())
+    }
+}
+
 pub(crate) struct AddEnv {
     pub(crate) config: Config,
     pub(crate) registrations_for_peer: BiMapModel<(PeerId, Ns), RegistrationId>,
+    pub(crate) registrations: RegStore,
 }
 
 // impl AddEnv { fn ttl_check(&self, ttl) -> Result<(), ErrorCode>;  fn admit(&mut self, new_registration: NewReg) -> Result<RegistrationId, ErrorCode> }
@@ -136,7 +154,7 @@ fn count_of(e: &AddEnv, p: PeerId) -> usize {
 
 /// any registration table with <= 3 entries (2 peers x 3 namespaces) that respects both limits
 fn any_env() -> AddEnv {
-    let mut e = AddEnv { config: config(0, u64::MAX, small(), small()), registrations_for_peer: BiMapModel::new() };
+    let mut e = AddEnv { config: config(0, u64::MAX, small(), small()), registrations_for_peer: BiMapModel::new(), registrations: RegStore::new() };
     let mut i = 0u64;
     while i < 3 {
         if kani::any() {
@@ -154,7 +172,7 @@ fn any_env() -> AddEnv {
 /// TTL clause (complete: every u64 ttl, min, max): refused <=> ttl outside [min_ttl, max_ttl]
 #[kani::proof]
 fn ttl_outside_range_is_refused() {
-    let e = AddEnv { config: config(kani::any(), kani::any(), 0, 0), registrations_for_peer: BiMapModel::new() };
+    let e = AddEnv { config: config(kani::any(), kani::any(), 0, 0), registrations_for_peer: BiMapModel::new(), registrations: RegStore::new() };
     let ttl: Ttl = kani::any();
     let r = e.ttl_check(ttl);
     let inside = e.config.min_ttl <= ttl && ttl <= e.config.max_ttl;
@@ -214,7 +232,22 @@ fn refresh_replaces_the_old_entry() {
         kani::cover!(true);
         assert!(e.registrations_for_peer.len() == n0 && count_of(&e, p) == c0);
         assert!(e.registrations_for_peer.get_by_left(&(p, ns)) == Some(&id));
+        // the superseded registration is dropped from `registrations` (discovery never
+        // returns it, its old timer finds nothing to expire)
+        assert!(e.registrations.removes == 1 && e.registrations.removed == old, "C51: superseded registration id left in registrations");
     }
+}
+
+/// a NEW (peer, namespace) supersedes nothing
+#[kani::proof]
+#[kani::unwind(6)]
+fn new_registration_supersedes_nothing() {
+    let mut e = any_env();
+    let p = any_peer();
+    let ns = any_ns();
+    kani::assume(e.registrations_for_peer.get_by_left(&(p, ns)).is_none());
+    let _ = e.admit(NewReg { record: Rec(p), namespace: ns });
+    assert!(e.registrations.removes == 0);
 }
 
 /// Vacuity canary: must FAIL.
